@@ -61,6 +61,15 @@ Proof.
   destruct (read_loop_spec _ _ _ _ _ _ _ _ H) as (P1 & P2 & P3 & P4 & P5 & _). auto.
 Qed.
 
+(* the bytes on which the compression format of an input is decided do not depend on how the kernel slices the
+   input (a first read of 1 byte on a pipe, interruptions): always the first kMagicSize bytes, or all of a shorter input *)
+Theorem C15_magic_sniff_transparent : forall (A : Type) o (src : list A) g s' r,
+  sniff_magic o src = (g, s', r, Ok) -> no_false_eof o -> g = firstn magic_size src.
+Proof.
+  intros A o src g s' r H Hnf. unfold sniff_magic, read_or_eof in H.
+  destruct (read_loop_spec _ _ _ _ _ _ _ _ H) as (_ & _ & _ & P4 & _). auto.
+Qed.
+
 Theorem C15_read_eintr_invariant : forall (A : Type) e o (src : list A) amount g s' r st,
   read_loop e o src amount = (g, s', r, st) -> read_loop e (strip o) src amount = (g, s', strip r, st).
 Proof. exact (@read_strip). Qed.
